@@ -84,20 +84,25 @@ OtherDocs == << <<"a", << <<"num", <<52, 50>>>>, <<"s", <<111, 116, 104, 101, 11
 ReuseC == /\ cloned
           /\ docsC' = OtherDocs /\ hist' = Append(hist, [op |-> "reuse", who |-> "c"])
           /\ UNCHANGED <<docs0, text0, copy, docsO, cloned, scribbled>>
-ReuseO == /\ cloned
-          /\ docsO' = OtherDocs /\ hist' = Append(hist, [op |-> "reuse", who |-> "o"])
+ReuseO == /\ docsO' = OtherDocs /\ hist' = Append(hist, [op |-> "reuse", who |-> "o"])
+          /\ UNCHANGED <<docs0, text0, copy, docsC, cloned, scribbled>>
+(* ... or serve as the destination of Deserialize (of a blob holding the other document): same effect, different code path *)
+DeserC == /\ cloned
+          /\ docsC' = OtherDocs /\ hist' = Append(hist, [op |-> "deser", who |-> "c"])
+          /\ UNCHANGED <<docs0, text0, copy, docsO, cloned, scribbled>>
+DeserO == /\ docsO' = OtherDocs /\ hist' = Append(hist, [op |-> "deser", who |-> "o"])
           /\ UNCHANGED <<docs0, text0, copy, docsC, cloned, scribbled>>
 
 Next == /\ Len(hist) < MaxOps
-        /\ \/ Scribble \/ Clone \/ ReuseC \/ ReuseO
+        /\ \/ Scribble \/ Clone \/ ReuseC \/ ReuseO \/ DeserC \/ DeserO
            \/ \E p \in AllPaths(docsO), e \in EditOps : EditO(p, e)
            \/ (cloned /\ \E p \in AllPaths(docsC), e \in EditOps : EditC(p, e))
         /\ UNCHANGED <<prev, how>>
 Spec == Init /\ [][Next]_vars
 
 \* M: the two documents only ever change through their own edits
-Independence == [][(docsO' # docsO => hist'[Len(hist')].op \in {"edit", "reuse"} /\ hist'[Len(hist')].who = "o")
-                   /\ (docsC' # docsC /\ cloned => hist'[Len(hist')].op \in {"edit", "reuse"} /\ hist'[Len(hist')].who = "c")]_vars
+Independence == [][(docsO' # docsO => hist'[Len(hist')].op \in {"edit", "reuse", "deser"} /\ hist'[Len(hist')].who = "o")
+                   /\ (docsC' # docsC /\ cloned => hist'[Len(hist')].op \in {"edit", "reuse", "deser"} /\ hist'[Len(hist')].who = "c")]_vars
 \* M: with copying, no string word of the tape refers to the input; without, exactly the escape-free ones do
 RegionRule == LET t == TapeOf(docs0, copy).w IN
               \A i \in 1..Len(t) : (t[i][1] = "\"m") => ~copy
